@@ -195,11 +195,16 @@ class ObjectMeta(type, Element):
                     and value is True
                     and getattr(super_cls, "additionalProperties", True) is True
                 )
-                # A non-empty description is declared by the docstring.
+                # A non-empty description is declared by the docstring,
+                # which only counts when no base class has a description.
                 or (
                     param.name == "description"
                     and isinstance(value, str)
                     and value
+                    and isinstance(
+                        getattr(super_cls, "description", NotPassed()),
+                        NotPassed,
+                    )
                 )
             ):
                 continue
